@@ -58,10 +58,11 @@ Fixpoint normpath_go (segs : list str) (resolved : list str) : list str :=   (* 
   | [] => rev resolved
   | s :: r =>
       if str_eqb s (lit "../") || str_eqb s (lit "..") then
-        (* if resolved[1:]: resolved.pop() *)
+        (* if resolved[1:] or (resolved and resolved[0] != "/"): resolved.pop() *)
         normpath_go r (match resolved with
-                       | x :: (_ :: _) as rest => rest
-                       | _ => resolved end)
+                       | x :: [] => if str_eqb x [47] then resolved else []
+                       | x :: rest => rest
+                       | [] => [] end)
       else if str_eqb s (lit "./") || str_eqb s (lit ".") then normpath_go r resolved
       else normpath_go r (s :: resolved)
   end.
